@@ -149,7 +149,20 @@ struct ConfigWorld : World {
 			bool degenerate = false; for (size_t i = 0; i < rel.size(); ++i) if (rel[i].empty() && (i == 0 || i + 1 == rel.size())) degenerate = true;
 			if (degenerate && op.kind != OP_WALK) { continue; }
 			switch (op.kind) {
-			case OP_ASSIGN: {
+			case OP_ASSIGN: if (holder == 3 && (op.c & 0x600) == 0x600 && !kept_item) {
+				// a copy of the private configuration is a configuration of its own: what is assigned to or removed from the copy stays there
+				config::root *cp; { Sut s; cp = new config::root(*priv); }
+				Block pb(ps.size() + 1, 0); memcpy(pb.p, ps.c_str(), ps.size() + 1);
+				bool sr; { Sut s; sr = cp->set((const char *) pb.p, "copy-only", sep); }
+				std::string got; bool found = query(cp, ps, sep, got);
+				if (sr && (!found || got != "copy-only")) fail("lost-value", "a copy of the private configuration does not read what was just assigned to it at '%s'", short_path(rel).c_str());
+				{ Sut s; if (op.c & 0x800) cp->del((const char *) pb.p, sep, -1); else cp->remove(0); }
+				{ Sut s; delete cp; }
+				log.ev("COPY of the private configuration: set '%s' -> %d, then %s, destroyed", short_path(rel).c_str(), (int) sr, (op.c & 0x800) ? "removed it" : "cleared the copy");
+				st.hit("probe:cxx_config_copied"); outcome = 1;
+				verify_all("COPY", 0, 0);
+				break;
+			} else {
 				static const size_t lens[] = {0, 1, 5, 254, 255, 256, 1000, 70000};
 				size_t vl = lens[op.b % 8];
 				std::string val(vl, 'v'); for (size_t i = 0; i < vl; ++i) val[i] = (char) ('a' + (op.c + i) % 26);
